@@ -3,7 +3,9 @@ From Coq Require Import List NArith ZArith Bool.
 Import ListNotations.
 Open Scope Z_scope.
 
-Inductive res := Val (z : Z) | Panic.
+(* Val: a result in range; Panic: the dev build panics here (unchecked arithmetic);
+   Ovf: a checked_* operation returned None (the caller turns it into a diagnostic) *)
+Inductive res := Val (z : Z) | Panic | Ovf.
 
 Definition i64_min : Z := -9223372036854775808.
 Definition i64_max : Z := 9223372036854775807.
@@ -23,6 +25,18 @@ Definition i64_rem (a b : Z) : res := if (a =? i64_min) && (b =? -1) then Panic 
 Definition i64_shl (a b : Z) : res := if (0 <=? b) && (b <? 64) then Val (wrap64 (a * 2 ^ b)) else Panic.
 Definition i64_shr (a b : Z) : res := if (0 <=? b) && (b <? 64) then Val (Z.shiftr a b) else Panic.
 Definition i64_xor (a b : Z) : res := Val (Z.lxor a b).
+
+(* checked_add/sub/mul/neg/div/rem/shl/shr: None instead of a panic *)
+Definition cchk (z : Z) : res := if in_i64 z then Val z else Ovf.
+Definition i64_checked_add (a b : Z) : res := cchk (a + b).
+Definition i64_checked_sub (a b : Z) : res := cchk (a - b).
+Definition i64_checked_mul (a b : Z) : res := cchk (a * b).
+Definition i64_checked_neg (a : Z) : res := cchk (- a).
+Definition i64_checked_div (a b : Z) : res := if (b =? 0) || ((a =? i64_min) && (b =? -1)) then Ovf else Val (Z.quot a b).
+Definition i64_checked_rem (a b : Z) : res := if (b =? 0) || ((a =? i64_min) && (b =? -1)) then Ovf else Val (Z.rem a b).
+(* `u32::try_from(b).ok().and_then(|b| a.checked_shl(b))`: None unless 0 <= b < 64 *)
+Definition i64_checked_shl (a b : Z) : res := if (0 <=? b) && (b <? 64) then Val (wrap64 (a * 2 ^ b)) else Ovf.
+Definition i64_checked_shr (a b : Z) : res := if (0 <=? b) && (b <? 64) then Val (Z.shiftr a b) else Ovf.
 
 Definition b2z (b : bool) : Z := if b then 1 else 0.
 
